@@ -159,7 +159,7 @@ fn main() {
                 _ => "badval".into(),
             }),
             ["leak", i, loader, reps, h] => Some(match reg[i.parse::<usize>().unwrap()].leak {
-                Some(f) => f(&unhex(h), loader, reps.parse().unwrap()),
+                Some(f) => f(&(if *h == "DIR" { b"<dir>".to_vec() } else { unhex(h) }), loader, reps.parse().unwrap()),
                 None => "badval".into(),
             }),
             ["fload", i, loader, h] => Some(match reg[i.parse::<usize>().unwrap()].fload {
